@@ -52,11 +52,15 @@ type SConsumer struct {
 	ActiveTime int64
 }
 
+// SCGInvalidEntriesRead is stream.h SCG_INVALID_ENTRIES_READ (-1, "the counter is unknown") as
+// the unsigned value rdbSaveLen writes for it.
+const SCGInvalidEntriesRead = ^uint64(0)
+
 // SGroup is one consumer group.
 type SGroup struct {
 	Name        []byte
 	LastID      SID
-	EntriesRead uint64 // v2+
+	EntriesRead uint64 // v2+; SCGInvalidEntriesRead = unknown
 	PEL         []SPending
 	Consumers   []SConsumer
 }
